@@ -95,6 +95,12 @@ def handlePath (fields : List String) : Option String :=
       | "line", some [x1, y1, x2, y2] => some (Spec.lineOutline x1 y1 x2 y2)
       | _, _ => none
     segs?.map (fun segs => "ok " ++ ";".intercalate (segs.map encSeg))
+  | ["spec", "rectattr", a, gx, gy] =>
+    match decList floatCodec a with
+    | some [x, y, w, h, rx, ry] =>
+      let segs := Spec.rectOutlineAttr x y w h (if gx == "1" then some rx else none) (if gy == "1" then some ry else none)
+      some ("ok " ++ ";".intercalate (segs.map encSeg))
+    | _ => none
   | ["arc", a, l, s] =>
     match decList floatCodec a with
     | some [sx, sy, rx, ry, rot, ex, ey] =>
